@@ -289,18 +289,18 @@ fn gen_op(t: &mut Tape, allow_neg_zero: bool) -> Op {
         },
         1 => Op::D {
             time,
-            sv: *t.pick(&[1.0, 2.0, 0.5, 0.1, 10.0, 1.0 + f64::EPSILON, 1.0 + 2.0 * f64::EPSILON, 1.0 - f64::EPSILON / 2.0, 1.5]),
+            sv: *t.pick(&[1.0, 2.0, 0.5, 0.1, 10.0, 1.0 + f64::EPSILON, 1.0 + 2.0 * f64::EPSILON, 1.0 - f64::EPSILON / 2.0, 1.5, 12.0, 0.05, 0.0]),
             ticks: !t.chance(25),
         },
         2 => Op::E {
             time,
             kiai: t.chance(50),
-            scroll: *t.pick(&[1.0, 1.0, 2.0, 0.01, 10.0, 1.0 + f64::EPSILON, 0.5]),
+            scroll: *t.pick(&[1.0, 1.0, 2.0, 0.01, 10.0, 1.0 + f64::EPSILON, 0.5, 12.0, 0.005, 0.0, -1.0, 10.5]),
         },
         _ => Op::S {
             time,
             bank: *t.pick(&[1u8, 2, 3, 0]),
-            vol: *t.pick(&[100, 50, 0, 100, 5]),
+            vol: *t.pick(&[100, 50, 0, 100, 5, 120, -5]),
             idx: *t.pick(&[0, 0, 1, 2, -1]),
         },
     }
